@@ -19,6 +19,7 @@ Deductive part (real code, re-read every run; transport / executor / pipeline / 
      M2  exceptionally iff the message carries an error mark, otherwise with (msg.data, msg.context);
      M3  a status for an unknown job completes nothing; at most one status is consumed per iteration.
   QueueSemantivaOrchestrator.enqueue: the future handed out is the one stored under the job id that is queued.
+  in-memory transport: the obligations G1-G3 / S1-S2 of specs/C14.py are re-discharged here (the end-to-end statement is conditional on them).
 Bounded stand-in (labelled bounded): real threads, batches x workers x switch intervals x failing position (replay/c15_bounded.py).
 """
 from __future__ import annotations
@@ -611,7 +612,19 @@ def h_enqueue(spec):
     spec.assumptions |= s2.assumptions
 
 
-TASKS = [h_master, h_enqueue, h_worker]
+def h_transport(spec):
+    """the delivery contract the composition relies on: the lock-discipline and sequential obligations of the in-memory transport
+    (harnesses of specs/C14.py, re-discharged here because C15's end-to-end statement is conditional on them)"""
+    from . import C14
+    s2 = C14.Spec()
+    s2.obligations, s2._seen, s2.undecided, s2.functions, s2.used_contracts = spec.obligations, spec._seen, spec.undecided, spec.functions, spec.used_contracts
+    C14.h_publish(s2)
+    C14.h_iterate(s2)
+    spec.path_count += s2.path_count
+    spec.assumptions |= s2.assumptions
+
+
+TASKS = [h_master, h_enqueue, h_transport, h_worker]
 
 
 def factory():
@@ -621,8 +634,9 @@ def factory():
 def replay(ob):
     payload = {"obligation": ob.name, "solver": ob.backend, "model": report.model_summary(ob), "meta": getattr(ob, "meta", {}),
                "goal": ob.goal if isinstance(ob.goal, str) else str(ob.goal)[:400]}
-    script = os.path.join(report.ROOT, "replay", "c15_bounded.py")
-    res, proc = report.native_json(script, {"tier": "quick", "seed": 0}, timeout=600)
+    transport_ob = ob.name.startswith(("publish/", "__iter__/"))
+    script = os.path.join(report.ROOT, "replay", "c14_bounded.py" if transport_ob else "c15_bounded.py")
+    res, proc = report.native_json(script, {"tier": "quick", "seed": 0}, timeout=900)
     fails = (res or {}).get("failures", [])
     w = (getattr(ob, "meta", {}) or {}).get("witness")
     if w == "falsy-data":
